@@ -7,6 +7,7 @@ import (
 	"encoding/hex"
 	"encoding/json"
 	"fmt"
+	"runtime"
 	"sync"
 	"time"
 
@@ -158,24 +159,31 @@ func runConcurrent(s spec) (res result) {
 	}
 	deadline := time.Now().Add(6 * time.Second)
 	var mu sync.Mutex
-	for it := 0; it < s.Iters && time.Now().Before(deadline) && res.Err == "" && res.Panic == ""; it++ {
-		var wg sync.WaitGroup
-		for i := range askers {
-			wg.Add(1)
-			go func(i int) {
-				defer wg.Done()
-				defer func() {
-					if p := recover(); p != nil {
-						mu.Lock()
-						res.Panic = fmt.Sprint(p)
-						mu.Unlock()
-					}
-				}()
+	var wg sync.WaitGroup
+	failed := func() bool {
+		mu.Lock()
+		defer mu.Unlock()
+		return res.Err != "" || res.Panic != ""
+	}
+	// every asker runs its diffs back to back, with no barrier between iterations, and looks at each report only
+	// after yielding: the report belongs to the caller, whatever diffs (its own next one excluded) start, run or
+	// finish in the meantime
+	for i := range askers {
+		wg.Add(1)
+		go func(i int) {
+			defer wg.Done()
+			defer func() {
+				if p := recover(); p != nil {
+					mu.Lock()
+					res.Panic = fmt.Sprint(p)
+					mu.Unlock()
+				}
+			}()
+			for it := 0; it < s.Iters && time.Now().Before(deadline) && !failed(); it++ {
 				var one result
 				var err error
 				sp := spec{L: s.Askers[i], R: s.R, Variant: s.Variant}
 				ctx, cancel := context.WithTimeout(context.Background(), 5*time.Second)
-				defer cancel()
 				if (i+it)%2 == 0 {
 					sp.Variant = "compare"
 					one.New, one.Changed, one.Theirs, one.Removed, err = askers[i].(ldiff.CompareDiff).CompareDiff(ctx, remote)
@@ -183,11 +191,18 @@ func runConcurrent(s spec) (res result) {
 					sp.Variant = "diff"
 					one.New, one.Changed, one.Removed, err = askers[i].Diff(ctx, remote)
 				}
+				cancel()
+				for y := 0; y < 1+(i+it)%4; y++ {
+					runtime.Gosched()
+				}
+				if (i+it)%3 == 0 {
+					time.Sleep(time.Duration(50*(1+i)) * time.Microsecond)
+				}
 				msg := ""
 				if err != nil {
 					msg = "error: " + err.Error()
 				} else {
-					one.New, one.Changed, one.Theirs, one.Removed = hexAll(one.New), hexAll(one.Changed), hexAll(one.Theirs), hexAll(one.Removed)
+					one = result{New: hexCopy(one.New), Changed: hexCopy(one.Changed), Theirs: hexCopy(one.Theirs), Removed: hexCopy(one.Removed)}
 					msg = oracle(sp, one)
 				}
 				if msg != "" {
@@ -197,11 +212,39 @@ func runConcurrent(s spec) (res result) {
 					}
 					mu.Unlock()
 				}
-			}(i)
-		}
-		wg.Wait()
+			}
+		}(i)
 	}
+	wg.Wait()
 	return
+}
+
+// disturb runs two unrelated diffs (fresh indexes, ids of their own) — used between receiving a report and
+// reading it: a report handed to the caller must not change when later diffs run
+func disturb() {
+	defer func() { _ = recover() }()
+	a, b := ldiff.New(4, 2), ldiff.New(4, 2)
+	var ea, eb []ldiff.Element
+	for i := 0; i < 12; i++ {
+		id := fmt.Sprintf("zz-disturb-%02d", i)
+		if i < 8 {
+			ea = append(ea, ldiff.Element{Id: id, Head: "a"})
+		}
+		if i >= 4 {
+			h := "a"
+			if i%2 == 0 {
+				h = "b"
+			}
+			eb = append(eb, ldiff.Element{Id: id, Head: h})
+		}
+	}
+	a.Set(ea...)
+	b.Set(eb...)
+	ctx, cancel := context.WithTimeout(context.Background(), 2*time.Second)
+	defer cancel()
+	_, _, _, _ = a.Diff(ctx, b)
+	_, _, _, _, _ = a.(ldiff.CompareDiff).CompareDiff(ctx, b)
+	_, _, _, _ = b.Diff(ctx, a)
 }
 
 func runCase(s spec) (res result) {
@@ -241,7 +284,9 @@ func runCase(s spec) (res result) {
 	if err != nil {
 		res.Err = err.Error()
 	}
-	res.New, res.Changed, res.Theirs, res.Removed = hexAll(res.New), hexAll(res.Changed), hexAll(res.Theirs), hexAll(res.Removed)
+	// the report is read only after other, unrelated diffs have run
+	disturb()
+	res.New, res.Changed, res.Theirs, res.Removed = hexCopy(res.New), hexCopy(res.Changed), hexCopy(res.Theirs), hexCopy(res.Removed)
 	return
 }
 
@@ -251,6 +296,16 @@ func hexAll(l []string) []string {
 		l[i] = hex.EncodeToString([]byte(s))
 	}
 	return l
+}
+func hexCopy(l []string) []string {
+	if l == nil {
+		return nil
+	}
+	out := make([]string, len(l))
+	for i, s := range l {
+		out[i] = hex.EncodeToString([]byte(s))
+	}
+	return out
 }
 func unhexAll(l []string) []string {
 	out := make([]string, len(l))
